@@ -119,3 +119,15 @@ package failsafehttp
 //@   ensures [C18.request.attempt_closure] berr == nil ==> clofn(arg(executor.GetWithExecution, 1, 0)) == fnid("doRequest$1")
 //@   havoc
 //@   modifies *
+
+// The builder's defaults: retry exactly the documented outcomes (one handle condition: RetryPolicyBuilder$1), abort only on
+// context.Canceled (transport time-outs, which wrap context.DeadlineExceeded, stay retryable), delay by Retry-After.
+//@ func RetryPolicyBuilder
+//@   builder
+//@   dyntype retrypolicy.RetryPolicyBuilder *retrypolicy.config only
+//@   let c := asref(result, *retrypolicy.config)
+//@   ensures [C18.builder.abort_only_on_canceled] typeis(result, *retrypolicy.config) && len(c.abortConditions) == 1 && clofn(c.abortConditions[0]) == fnid("github.com/failsafe-go/failsafe-go/policy.(*BaseAbortablePolicy).AbortOnErrors$1") && cellof(clobind(c.abortConditions[0], 0), error) == global("context.Canceled")
+//@   ensures [C18.builder.handles_documented_outcomes] len(c.failureConditions) == 1 && c.failureConditions[0] == fnid("RetryPolicyBuilder$1")
+//@   ensures [C18.builder.retry_after_delay] c.DelayFunc == fnid("DelayFunc")
+//@   havoc
+//@   modifies *
